@@ -36,7 +36,7 @@ pub fn gen(ctx: &mut Ctx) -> Vec<String> {
         for s in all.iter().step_by(stride.max(1)) { out.push(req(false, 1, progs, s)); ctx.count("enumerated"); }
     }
     // (2) random programs, 2-3 threads, 1-2 relations, tuple domain {1..4}
-    let n = ctx.budget(2500, 30000);
+    let n = ctx.budget(1500, 30000);
     for _ in 0..n {
         let nt = 2 + ctx.below(2);
         let nr = 1 + ctx.below(2);
